@@ -111,3 +111,19 @@ Proof.
   - apply Rdiv_lt_0_compat; lra.
   - unfold sigma_squared. apply Rdiv_lt_0_compat; [|lra]. apply pow_lt. lra.
 Qed.
+
+(* ---- the boolean tests on R ---- *)
+Lemma Rgtb_total : forall a b : R, a <> b -> Rgtb a b = true \/ Rgtb b a = true.
+Proof.
+  intros a b H. unfold Rgtb. destruct (Rlt_dec b a); [now left|]. destruct (Rlt_dec a b); [now right|].
+  exfalso. apply H. apply Rle_antisym; apply Rnot_lt_le; assumption.
+Qed.
+
+Lemma hit_condition_bool f m l :
+  (Rposb f && Rposb l && Rgtb m f && Rgtb m l)%bool = true <-> hit_condition f m l.
+Proof.
+  unfold Rposb, Rgtb, hit_condition.
+  destruct (Rlt_dec 0 f), (Rlt_dec 0 l), (Rlt_dec f m), (Rlt_dec l m); cbn; split; intros H;
+    try discriminate; try reflexivity; try (repeat split; assumption);
+    destruct H as (? & ? & ? & ?); exfalso; auto.
+Qed.
